@@ -102,12 +102,16 @@ def check_table(prog, r):
             if "PeerReconnected" in real:
                 dele = [m for m in (a.must + a.may) if m[0].startswith("Delete")]
                 partial = False
+                # blocks of this arm that build the PeerReconnected state
+                recon = [bb for bb, si_, s_ in fv.aggregates(re.compile(r"rustybgpd::gr::Inner"), "PeerReconnected") if bb == a.block or bb in fv.reach(a.block) or a.block in fv.reach(bb)]
                 for v, s, b in dele:
                     gs = flat_guards(fv, b)
-                    # a Delete that can be emitted while the new state is PeerReconnected: not guarded by "new state is Idle"
+                    # a Delete that can be emitted while the new state is PeerReconnected: not guarded by "new state is Idle",
+                    # and on a common path with the construction of PeerReconnected (an exclusive branch is the Idle case)
                     idle_only = any("Idle" in show(g, 200) and "matches" not in show(g, 50) for g, l, h in gs) or \
                         any(g[0] == "discr" and "new_state" in expr_vars(g) and l == {"Idle"} for g, l, h in gs)
-                    if not idle_only:
+                    same_path = any(b in fv.reach(rb) or rb in fv.reach(b) for rb in recon)
+                    if not idle_only and same_path:
                         partial = True
                 if partial:
                     r.ok(desc + ": families dropped by the re-negotiation are purged")
@@ -121,7 +125,26 @@ def check_table(prog, r):
     return arms
 
 
+def check_live_session_purges(prog, r):
+    """While a session is up (PeerSession::process_effects: reconnect, End-of-RIB) the helper may only remove the routes
+    still marked stale: TableManager::drop_families removes every path of the peer in the family, including the ones
+    re-announced on the new session.  The all-paths drop belongs to the paths that run with the session down."""
+    pk = prog.one(r"rustybgpd::event::PeerSession::process_effects")
+    fv = view(prog, prog.body_key(pk))
+    r.analysed(prog.name(pk))
+    allp = fv.calls(re.compile(r"rustybgpd::table_manager::TableManager::drop_families$"))
+    stale = fv.calls(re.compile(r"rustybgpd::table_manager::TableManager::(drop_stale_families|drop_llgr_stale_families)$"))
+    if allp:
+        r.fail(prog.name(pk), "live-session-purge-drops-all", "process_effects (session established) purges with TableManager::drop_families at line %d: that removes the routes the peer "
+               "has just re-announced together with the stale ones" % fv.line(allp[0][0]), fv.loc(allp[0][0]))
+    elif len(stale) >= 4:
+        r.ok("process_effects purges only with drop_stale_families / drop_llgr_stale_families (%d sites)" % len(stale))
+    else:
+        r.unanalysable("process_effects: %d stale-only purge sites (want >= 4)" % len(stale), fv.loc())
+
+
 def check_retention(prog, r):
+    check_live_session_purges(prog, r)
     sl = prog.one(r"rustybgpd::event::PeerSession::session_loop")
     fv = view(prog, prog.body_key(sl))
     r.analysed(prog.name(sl))
